@@ -750,14 +750,22 @@ def setup_sql(db, tables, pk=None, notnull=(), coltypes=None):
 
 
 # ----------------------------------------------------------------------------- SQLite cross-check
-def sqlite_rows(db, tables, sql):
+def sqlite_rows(db, tables, sql, views=()):
     con = sqlite3.connect(":memory:")
     for t, cols in tables.items():
         con.execute(f"create table {t}({', '.join(c + (' integer' if ty == INT else ' text') for c, ty in cols)})")
         for r in db.get(t, []):
             con.execute(f"insert into {t} values ({', '.join('?' for _ in r)})", r)
+    # the SQL functions of FUNCS, written out independently of their bodies
+    strict = lambda f: (lambda *a: None if any(x is None for x in a) else f(*a))
+    con.create_function("f_add", 2, strict(lambda a, b: a + b))
+    con.create_function("f_inc", 1, strict(lambda a: a + 1))
+    con.create_function("f_max", 2, lambda a, b: a if (a is not None and b is not None and a > b) else b)
+    con.create_function("f_nz", 1, lambda a: 0 if a is None else a)
     try:
         import re
+        for vsql in views:
+            con.execute(vsql.replace(" true", " 1").replace(" false", " 0"))
         s2 = sql.replace(" true", " 1").replace(" false", " 0")
         s2 = re.sub(r"(?<!limit \d) offset (\d+)$", r" limit -1 offset \1", s2) if " limit " not in s2.rsplit(")", 1)[-1] else s2
         cur = con.execute(s2)
